@@ -50,6 +50,18 @@ def mk_operand(su, kind, items):
         return tuple(items)
     if kind == 'iset':
         return su.IndexedSet(items)
+    if kind == 'iset-messy':
+        # an operand with a history of its own: built from a superset, trimmed, then reversed or sorted
+        # (whatever order IT then iterates in is the order it contributes)
+        extras = [10 ** 6 + i for i in range(len(items) + 2)]
+        o = su.IndexedSet(extras[:1] + list(items) + extras[1:])
+        for x in extras:
+            o.discard(x)
+        if len(items) % 3 == 0:
+            o.reverse()
+        elif len(items) % 3 == 1:
+            o.sort(key=lambda x: -x if isinstance(x, int) else 0)
+        return o
     raise ValueError(kind)
 
 
@@ -152,6 +164,11 @@ class Run(object):
                 self.fail(read, 'op %r returned %r, model %r' % (trimop(op), trim(got), trim(want)))
             if st is not None:
                 st.monitor_evals += 1
+        if name == 'remove_at':
+            if not L:
+                return
+            op = ['remove', L[min(len(L) - 1, int(op[1] * len(L)))]]
+            name = 'remove'
         if name == 'add':
             expect(outcome(s.add, op[1]), ('ok', None), 'result[add]')
             if op[1] not in L:
@@ -296,6 +313,8 @@ class Check(object):
 
     def operand(self, r, pool, allow=('set', 'frozenset', 'list', 'tuple', 'iset')):
         kind = r.choice(allow)
+        if kind == 'iset' and r.random() < 0.5:
+            kind = 'iset-messy'
         n = r.choice([0, 1, 2, 3, 5])
         items = [r.choice(pool) for _ in range(n)]
         if kind == 'list' and items and r.random() < 0.5:
@@ -307,6 +326,8 @@ class Check(object):
         k = r.choices(['add', 'remove', 'discard', 'pop', 'clear', 'sort', 'reverse', 'update', 'inplace',
                        'algebra', 'operator', 'predicate'],
                       [22, 14, 6, 10, 1, 3, 3, 8, 8, 10, 6, 6])[0]
+        if k == 'remove' and r.random() < 0.3:
+            return ['remove_at', r.choice([0.0, 0.0, 0.999, r.random()])]     # first / last / somewhere
         if k in ('add', 'remove', 'discard'):
             return [k, x]
         if k == 'pop':
@@ -346,7 +367,13 @@ class Check(object):
         npool = r.choice([4, 6, 10, 16, 30])
         pool = list(range(npool))
         n = r.randint(1, r.choice([8, 30, 120]))
-        ops = [self.gen_op(r, pool) for _ in range(n)]
+        ops = []
+        for _ in range(n):
+            op = self.gen_op(r, pool)
+            ops.append(op)
+            if op[0] in ('reverse', 'sort') and r.random() < 0.6:
+                # what comes right after a re-ordering matters: tail/head pops and index reads
+                ops.append(r.choice([['pop'], ['pop', ('i', 0.5)], ['pop', ('i', 0.999)], ['remove_at', 0.0]]))
         return {'kind': 'short', 'ops': ops}
 
     def gen_medium(self, r, ctx):
@@ -373,6 +400,11 @@ class Check(object):
                     live.remove(y)
                     ops.append(['remove', y])
                 continue
+            if x > 0.985:
+                ops.append(r.choice([['reverse'], ['sort', 'neg', False], ['sort', 'nat', False]]))
+                ops.append(r.choice([['pop'], ['remove_at', 0.0], ['pop', ('i', 0.999)]]))
+                live = None
+                break
             if x > 0.93 and live:
                 near = [live[r.randrange(len(live))] for _ in range(3)] + [nxt + 7]
                 ops.append([r.choice(['union', 'or', 'difference', 'intersection', 'symmetric_difference']),
@@ -396,6 +428,10 @@ class Check(object):
             else:
                 ops.append(['discard', r.randrange(size)])
                 live = [y for y in live if y != ops[-1][1]]
+        if live is None:
+            for _ in range(r.randint(0, 12)):
+                ops.append(r.choice([['pop'], ['remove_at', r.random()], ['remove_at', 0.0], ['add', nxt + r.randint(1, 50)],
+                                     ['pop', ('i', r.random())], ['reverse']]))
         return {'kind': 'long', 'style': 'medium', 'ops': ops}
 
     def gen_long(self, r, ctx):
